@@ -1,0 +1,60 @@
+//! Verification hooks (compiled only with `--cfg smol_rs_async_lock_verif`).
+//!
+//! * a deterministic oracle that replaces the wall-clock starvation test of
+//!   `Mutex` so that both outcomes can be driven by a test harness;
+//! * nothing else lives here: state accessors are inherent `verif_*` methods
+//!   next to the types they inspect.
+
+use std::cell::RefCell;
+use std::collections::VecDeque;
+
+struct Oracle {
+    enabled: bool,
+    queue: VecDeque<bool>,
+    consulted: usize,
+}
+
+thread_local! {
+    static ORACLE: RefCell<Oracle> = RefCell::new(Oracle {
+        enabled: false,
+        queue: VecDeque::new(),
+        consulted: 0,
+    });
+}
+
+/// Switch the oracle on (the clock is then never consulted on this thread).
+pub fn oracle_enable(on: bool) {
+    ORACLE.with(|o| o.borrow_mut().enabled = on);
+}
+
+/// Replace the queue of pending answers.
+pub fn oracle_set(bits: &[bool]) {
+    ORACLE.with(|o| {
+        let mut o = o.borrow_mut();
+        o.queue.clear();
+        o.queue.extend(bits.iter().copied());
+    });
+}
+
+/// Number of answers still queued.
+pub fn oracle_len() -> usize {
+    ORACLE.with(|o| o.borrow().queue.len())
+}
+
+/// How often the starvation test has been evaluated on this thread.
+pub fn oracle_consulted() -> usize {
+    ORACLE.with(|o| o.borrow().consulted)
+}
+
+/// `Some(answer)` if the oracle is enabled on this thread (an empty queue
+/// answers `false`), `None` if the real clock should decide.
+pub(crate) fn oracle_next() -> Option<bool> {
+    ORACLE.with(|o| {
+        let mut o = o.borrow_mut();
+        if !o.enabled {
+            return None;
+        }
+        o.consulted += 1;
+        Some(o.queue.pop_front().unwrap_or(false))
+    })
+}
